@@ -244,6 +244,11 @@ def check(ctx):
                 pair[val[1]] = (idx, val[2][0])
         ok2 = set(pair) == {"Fixed", "Dynamic"}
         if ok2:
+            # ... on every path: a subscriber that is kept (rewound, re-used) when the id "already served old events" keeps the previous split's frozen end, so the
+            # events published between the two split points are yielded by neither stream
+            sblocks = {v[1]: b for (b, idx, v) in stores if v[0] == "adt" and v[1] in ("Fixed", "Dynamic")}
+            ok2 = all(util.on_every_return_path(body, b) for b in sblocks.values())
+        if ok2:
             fi, fp = pair["Fixed"]; di, dp = pair["Dynamic"]
             # the two ids are distinct create_stream_id results; Fixed gets split.0, Dynamic split.1
             # (which component is the fixed / the dynamic subscriber is enforced by the variants' payload types; tuple or named struct is all the same)
